@@ -303,6 +303,9 @@ func (c *Check) Finish() {
 	if c.Exhaustive {
 		cov["exhaustive"] = true
 	}
+	if os.Getenv("VERIF_NORECORDER") == "1" {
+		cov["converter_call_trace"] = "not recorded: the recording wrapper does not compile against the repository's transpiler.Converter interface as it is now"
+	}
 	if len(c.Feats) > 0 {
 		cov["features_observed"] = c.Feats
 	}
